@@ -979,14 +979,16 @@ def check(ctx):
 
     # ---- 3. the iconv binding
     ic = iconv_cases(ctx)
-    traced = common.pmap('harness.c20', 'traced_iconv', ic, per_case_timeout=30)
+    traced = common.pmap('harness.c20', 'traced_iconv', ic, per_case_timeout=10)
     lines = [t[1] for t in traced if not isinstance(t, str) and t[1] is not None]
     model = common.run_driver(lines)
     ctx.evaluations += len(lines)
     mi = 0
     for payload, t in zip(ic, traced):
-        if isinstance(t, str):
-            ctx.disagree('iconv-loop', {'direction': payload[0], 'encoding': payload[1], 'len': len(payload[2])}, 'completed', t)
+        if isinstance(t, str) or 'CaseTimeout' in str(t[0]):
+            # the grow-and-retry loop must terminate (C20_iconv_* theorems: at most two doublings under the iconv(3) contract)
+            ctx.fail('iconv-loop-hang', {'direction': payload[0], 'encoding': payload[1], 'data': list(payload[2])[:50], 'len': len(payload[2])},
+                     'lib.iconv.%s did not finish within 10 s' % ('decode' if payload[0] == 'D' else 'encode'))
             continue
         real, line, problems, grows, n = t
         if line is None:
